@@ -1077,8 +1077,8 @@ def run(ctx):
             ctx.violation(v["key"], v["what"], {"scenario": sc, "order": v["order"], "base": v["base"]})
         # the model comparison takes a bounded sample of very large exhaustive sets
         keep = list(range(len(res)))
-        if len(keep) > 40:
-            keep = keep[:1] + sorted(rng.sample(keep[1:], 39))
+        if len(keep) > (40 if ctx.thorough else 18):
+            keep = keep[:1] + sorted(rng.sample(keep[1:], (39 if ctx.thorough else 17)))
         for j in keep:
             order, obs, info, burst = res[j]
             all_cases.append((sc, enc, order, obs, info, burst))
